@@ -148,6 +148,16 @@ inductive Call where
   /-- `Stack.get_slice(axis, index)` on a stack of `n2` shapes made from a sketch whose grid has
       `n1` rows of `n0` faces -/
   | stackSlice (axis idx : Int) (n0 n1 n2 : Nat)
+  /-- `curve.get_point(p)` / `curve.discretize(p, …)` on a curve with `bounds = (lo, hi)` (`CurveBase._check_param`) -/
+  | curveParam (p lo hi : Rat)
+  /-- `functions.polyline_length(points)` with `np.shape(points) = dims` -/
+  | polylineShape (dims : List Nat)
+  /-- `functions.to_cartesian(point, direction, axis)` (and `to_polar(point, axis)`) -/
+  | polarArgs (direction : Int) (axis : String)
+  /-- `RotationLink(leader, follower, axis, origin)`: the leader must not lie on the rotation axis -/
+  | rotationLink (leader origin axis : V3)
+  /-- `Elbow.chain(source, …)` where the source's sketch is / is not a `Disk` -/
+  | elbowChain (isDisk : Bool)
   deriving Repr
 
 def chainClass : Nat → String
@@ -230,6 +240,20 @@ def run (tol : Rat) : Call → Out
               (axis == 2 && decide ((n2 : Int) ≤ idx), "IndexError"),
               (axis == 0 && decide (0 < n2) && decide (0 < n1) && decide ((n0 : Int) ≤ idx), "IndexError"),
               (axis == 1 && decide (0 < n2) && decide ((n1 : Int) ≤ idx), "IndexError")]
+  | .curveParam p lo hi => checks [(!(decide (lo ≤ p) && decide (p ≤ hi)), "ValueError")]
+  | .polylineShape dims =>
+      match dims with
+      -- `len(np.shape(points)) != 2 or len(points[0]) != 3` (an empty list has shape (0,)), then `shape[0] < 2`
+      | [n, m] => checks [(n == 0 || m != 3, "ValueError"), (decide (n < 2), "ValueError")]
+      | _ => .reject "ValueError"
+  | .polarArgs direction axis =>
+      checks [(!(direction == -1 || direction == 1), "ValueError"), (!(axis == "x" || axis == "z"), "ValueError")]
+  | .rotationLink leader origin axis =>
+      let d := leader - origin
+      -- `norm(d - (d·â)â) < TOL` with â = axis/|axis|, multiplied by |axis|² and squared
+      checks [(decide (V3.norm2 d * V3.norm2 axis - V3.dot d axis * V3.dot d axis < tol * tol * V3.norm2 axis),
+               "ValueError")]
+  | .elbowChain isDisk => checks [(!isDisk, "ElbowCreationError")]
 
 /-- The documented preconditions, each written as the two-sided / symmetric condition it is. -/
 def pre (tol : Rat) : Call → Bool
@@ -274,12 +298,24 @@ def pre (tol : Rat) : Call → Bool
   | .stackSlice axis idx n0 n1 n2 =>
       inRange 0 2 axis && decide (0 ≤ idx) &&
         decide (idx < (if axis = 0 then (n0 : Int) else if axis = 1 then (n1 : Int) else (n2 : Int)))
+  | .curveParam p lo hi => decide (lo ≤ p) && decide (p ≤ hi)
+  | .polylineShape dims =>
+      match dims with
+      | [n, m] => m == 3 && decide (2 ≤ n)
+      | _ => false
+  | .polarArgs direction axis => (direction == -1 || direction == 1) && ["x", "z"].contains axis
+  | .rotationLink leader origin axis =>
+      -- distance of the leader from the axis at least `tol`, in squared form
+      decide (tol * tol * V3.norm2 axis ≤
+        V3.norm2 (leader - origin) * V3.norm2 axis - V3.dot (leader - origin) axis * V3.dot (leader - origin) axis)
+  | .elbowChain isDisk => isDisk
 
 /-- side conditions under which a call of the catalogue is meaningful at all (a stack holds at least
     one shape and its sketch at least one row; a `Project` that receives a label has 1 or 2 distinct ones) -/
 def wf : Call → Bool
   | .stackSlice _ _ _ n1 n2 => decide (0 < n1) && decide (0 < n2)
   | .projectAddLabel h _ => decide (0 < h.length) && decide (h.length ≤ 2)
+  | .rotationLink _ _ axis => !(isZero axis)   -- a zero axis gives NaN, which no comparison rejects
   | _ => true
 
 /-! ### clamps and links on the optimiser's grid (optimize/grid.py, junction.py) -/
@@ -542,6 +578,14 @@ def callOf (name : String) (r : List Rat) (s : List String) : Option Call :=
       some (.loftedShape (← natOf? n1) (← natOf? n2) (← mids.mapM natOf?))
   | "stackSlice", [axis, idx, n0, n1, n2], [] => do
       some (.stackSlice (← intOf? axis) (← intOf? idx) (← natOf? n0) (← natOf? n1) (← natOf? n2))
+  | "curveParam", [p, lo, hi], [] => some (.curveParam p lo hi)
+  | "polylineShape", dims, [] => do some (.polylineShape (← dims.mapM natOf?))
+  | "polarArgs", [d], [axis] => do some (.polarArgs (← intOf? d) axis)
+  | "rotationLink", [a, b, c, d, e, f, g, h, i], [] =>
+      some (.rotationLink (v3Of a b c) (v3Of d e f) (v3Of g h i))
+  | "elbowChain", [b], [] => do
+      let k ← natOf? b
+      if k < 2 then some (.elbowChain (k == 1)) else none
   | _, _, _ => none
 
 def handleCall (args : List String) : Option String :=
